@@ -182,6 +182,13 @@ class PosePath3D(object):
                 self._poses_se3.append(self._poses_se3[j].dot(rel_poses[i]))
         else:
             self._poses_se3 = [np.dot(t, p) for p in self.poses_se3]
+        if not lie.is_se3(t):
+            # E.g. Sim(3): the scale applies to the positions only,
+            # keep the rotation blocks of the poses orthonormal.
+            self._poses_se3 = [
+                lie.se3(p[:3, :3] / lie.sim3_scale(p), p[:3, 3])
+                for p in self._poses_se3
+            ]
         self._positions_xyz, self._orientations_quat_wxyz \
             = se3_poses_to_xyz_quat_wxyz(self.poses_se3)
 
